@@ -272,6 +272,7 @@ def pool_pel(draw):
                 cs.append(c)
             cl = {'ssid': 0xC0, 'ssflags': 0, 'list': cs}
         secs.append(M.default_src(ascii=M.pad_text(code, 32, b' '), words=[draw(S.uint(32)) for _ in range(8)],
+                                  wc=draw(st.sampled_from([9, 9, 9, 8, 6, 5, 2, 1])),
                                   flags=1 if cl else 0, callouts=cl))
     n = draw(st.integers(0, 4))
     for _ in range(n):
